@@ -83,6 +83,9 @@ class Stats:
         "solver_s",
         "assumes",
         "choices",
+        "xcheck_agree",
+        "xcheck_unknown",
+        "xcheck_disagree",
     )
 
     def __init__(self):
@@ -100,8 +103,12 @@ class Stats:
 class SymEngine:
     symbolic = True
 
-    def __init__(self, *, query_timeout_ms=10000, max_paths=4000, max_decisions=3000, max_wall_s=600.0, hash_mode="realize"):
+    def __init__(self, *, query_timeout_ms=10000, max_paths=4000, max_decisions=3000, max_wall_s=600.0, hash_mode="realize", cross_check=0):
         from . import q as _q
+
+        # cross_check = n: the first n discharged (unsat) obligations of the exploration are
+        # re-decided by cvc5 from the SMT-LIB text of the query (second solver, other code base)
+        self.cross_check = cross_check
 
         self._q = _q
         self.ntype = _q.Q
@@ -467,6 +474,9 @@ class SymEngine:
             # obligation was discharged vacuously
             self._ensure_model()
             self.stats.discharged += 1
+            if self.cross_check > 0:
+                self.cross_check -= 1
+                self._cross_check(z3.Not(e), label)
             if len(self.samples) < 6:
                 self.samples.append({"label": label, "obligation": e.sexpr()[:400], "path_decisions": len(self.decisions)})
             return True
@@ -484,6 +494,41 @@ class SymEngine:
         self.stats.unknown += 1
         self.inconclusive.append({"label": label, "why": "solver unknown", "obligation": e.sexpr()[:300]})
         return False
+
+    def _cross_check(self, negated, label):
+        """re-decide an unsat query with cvc5; a 'sat' from cvc5 is a disagreement"""
+        try:
+            import cvc5
+        except ImportError:
+            return
+        q = z3.Solver()
+        q.add(self.solver.assertions())
+        q.add(negated, *self._exclusions())
+        text = q.to_smt2()
+        try:
+            slv = cvc5.Solver()
+            slv.setOption("tlimit-per", "4000")
+            slv.setLogic("ALL")
+            ip = cvc5.InputParser(slv)
+            ip.setStringInput(cvc5.InputLanguage.SMT_LIB_2_6, text, "q")
+            sm = ip.getSymbolManager()
+            res = ""
+            while True:
+                cmd = ip.nextCommand()
+                if cmd.isNull():
+                    break
+                out = str(cmd.invoke(slv, sm)).strip()
+                if out:
+                    res = out
+        except Exception as ex:  # noqa: BLE001 - an encoding cvc5 does not read counts as unknown
+            res = "error:" + type(ex).__name__
+        if res == "unsat":
+            self.stats.xcheck_agree += 1
+        elif res == "sat":
+            self.stats.xcheck_disagree += 1
+            self.inconclusive.append({"label": label, "why": "second solver (cvc5) reports sat where z3 reports unsat", "obligation": negated.sexpr()[:300]})
+        else:
+            self.stats.xcheck_unknown += 1
 
     def _exclusions(self):
         out = []
